@@ -51,7 +51,7 @@ pub fn cleanup_scratch() {
 }
 
 /// Run `f(index, worker)` for index in 0..n on `threads` OS threads; results in index order.
-/// `deadline` (seconds since start) stops handing out new indices; unprocessed ones are None.
+/// `deadline` (seconds since start) stops handing out new indices; the result covers the indices handed out (a panicking one is None).
 pub fn par_map<T: Send + 'static>(
     n: u64,
     threads: usize,
@@ -90,7 +90,9 @@ pub fn par_map<T: Send + 'static>(
         let _ = h.join();
     }
     let mut map = std::mem::take(&mut *results.lock().unwrap());
-    (0..n).map(|i| map.remove(&i)).collect()
+    // only the indices that were handed out: `n` may be a "no limit" count bounded by the budget
+    let handed_out = next.load(Ordering::SeqCst).min(n);
+    (0..handed_out).map(|i| map.remove(&i)).collect()
 }
 
 ///////////////////////////////////////////// known findings ///////////////////////////////////////
